@@ -4,7 +4,7 @@
 From Coq Require Import ZArith List Bool Reals.
 From Flocq Require Import Core.Core IEEE754.BinarySingleNaN.
 From GV Require Import Base.CSem Base.F32 Gen.MetricPyx Spec.Jaccard Spec.JaccardF Model.MetricPy
-  Proofs.F32Round Proofs.C02.
+  Proofs.F32Round Proofs.C02 Proofs.C02Index.
 Import ListNotations.
 Open Scope Z_scope.
 
@@ -53,3 +53,13 @@ Theorem C02_dtypes : forall k1 s1 A k2 s2 B,
      py_jaccarddist k1 s1 A k2 s2 B = Error ValueError).
 Proof. exact C02_dtypes_l. Qed.
 Print Assumptions C02_dtypes.
+
+(** ... and that subtraction is exact: for every distance the kernel returns for a union of at most 2^24
+    k-mers (it is 0 or a binary32 in [2^-24, 1]), 1 - d is representable in binary64, so the reported
+    Jaccard index is exactly one minus the reported distance *)
+Theorem C02_index_exact : forall fuel A B d j,
+  sorted A -> sorted B -> (length A + length B <= fuel)%nat ->
+  union_count A B <= 16777216 -> jaccarddist fuel A B = Ok d -> jaccard fuel A B = Ok j ->
+  B2R j = (1 - B2R d)%R /\ is_finite j = true.
+Proof. exact C02_index_exact_l. Qed.
+Print Assumptions C02_index_exact.
